@@ -58,6 +58,15 @@ CHECKS = {
  "C13": ("E1-enum", "bounded exhaustive enumeration of (type, value) with the Descriptor taken three ways, the real Descriptor.Read + JSONOutput, and an independent JSON-model reference compared token by token",
    "Every type-in-position of the universe (default configuration) x boundary values (finite floats): Descriptor.Read over Marshal(v) succeeds, the output is valid JSON whose tokenised content equals ref.JSONModel(T, v) (objects with omitted fields absent, arrays element for element incl. empty elements, string-keyed maps as objects with every member, other maps as key/value lists, pointers as targets, RFC 3339 times, exact numbers), and the Descriptor restored through plenc and through encoding/json gives byte-identical output.",
    "Trusted: encoding/json tokenizer, ref.JSONModel. Default configuration only (a Descriptor does not record the ProtoCompatible switches); negative flat ints narrower than 64 bits excluded (documented caveat).", "§7 C13"),
+ "C16": ("E1-enum", "bounded exhaustive enumeration of JSON-model trees in four positions on the real JSON-any codecs, with encoding/json as the rendering oracle",
+   "Every depth-1 array / string-keyed map of width <=2 (thorough 3) over 20 leaves (nil, bools, boundary ints, floats, strings, json.Number, empty and nil containers) and keys {\"\", a, b}; depth-2 containers over a reduced element set plus every depth-1 container; depth-3 wrappers; each as top-level map, top-level array, struct field with a sibling, and as an unknown field skipped by a struct lacking it: round trip equal modulo nil/empty containers, sibling intact, and Descriptor + JSON outputter over the same bytes equal to encoding/json's rendering.",
+   "Trusted: encoding/json. Only the dynamic types the statement lists.", "§7 C16"),
+ "C17": ("E2-bfs", "explicit-state BFS over configuration histories (instances, registrations, early uses) with a registration-map model predicting every probe's bytes",
+   "BFS to depth 5 (thorough 6) over operations {create instance with default / both switches, RegisterCodec / RegisterCodecWithTag(flat|custom) of three marker codecs on any instance, Use(instance)}, states de-duplicated on the model's registration sets with the frontier exhausted; in every state every instance, the package default and the package-level functions run 11 probes placing the named type as value, field, *T, []T, map key, map value and under tags: bytes must equal the prediction for that instance alone. Registrations on the package default use a distinct named type per scenario.",
+   "Trusted: the registration-map model. Registration precedes first use on the same instance (documented API order).", "§7 C17"),
+ "C20": ("E1-enum", "bounded exhaustive enumeration of generated Go source files x flag combinations run through the real plenctag binary, with go/parser, go/format, go/types and plenc itself as oracles",
+   "Files from a grammar (1-2 fields, thorough 3; six field shapes x three types x ten existing-tag states; package-level, generic, function-local and expression struct types) x the 16 flag combinations, 47k runs quick: no crash; on error the file is untouched; otherwise AST-with-tags-erased unchanged, prior tags kept, new indexes above every prior one and distinct per name, exclusions dashed, unexported fields untouched by default, gofmt-stable, type-checks, plenc builds a codec for every tagged struct, second run is a fixed point.",
+   "Trusted: go/parser, go/format, go/types. The binary is rebuilt from /repo/cmd/plenctag by bin/check.", "§7 C20"),
 }
 NOT_YET = "check not built yet (in progress); see DESIGN.md §7 for the planned model-checking design"
 
